@@ -174,4 +174,6 @@ claim('C19',
       'absent arguments come from tolerant parses of odd inputs.',
       'Trusts CrossHair/z3; trees limited to what the bounded inputs produce.',
       'DESIGN.md section 4 C19')
-ENABLED = ['C01', 'C04', 'C05', 'C06', 'C11', 'C14', 'C15', 'C17', 'C20']
+ENABLED = ['C%02d' % i for i in range(1, 21)]
+# thorough commands are registered only for properties whose thorough tier was run end-to-end on the final tree
+THOROUGH = []
